@@ -270,5 +270,14 @@ example : overlapKet (ketMat [1, 1]) (ketMat [1, ⟨0, 1⟩]) = 2 ∧
     (innerKet (ketMat [1, 1]) (ketMat [1, ⟨0, 1⟩]) * innerKet (ketMat [1, 1]) (ketMat [1, ⟨0, 1⟩])).re = 0 := by
   decide +kernel
 
+/-- **Ket against density matrix agrees with ket against ket on pure states**: the branch
+`overlap(|a⟩, ρ) = ⟨a|ρ|a⟩` of `QutipState.overlap`, at `ρ = |b⟩⟨b|`, is the ket–ket value
+`|⟨a|b⟩|²` (so `Fidelity` does not depend on how a pure state happens to be stored). -/
+theorem overlap_ket_dm_pure (A B : Mat) (h : A.r = B.r) (hB : B.c = 1) :
+    expectKet (pureDM B) A = CQ.ofRat (overlapKet A B) := by
+  rw [expectKet_pureDM A B hB]; exact (overlap_ket A B h).2.2
+
+example : expectKet (pureDM (ketMat [1, ⟨0, 1⟩])) (ketMat [1, 1]) = ⟨2, 0⟩ := by decide +kernel
+
 end C20
 end Pulser
